@@ -16,9 +16,12 @@ class NegatedExpression(Node):
     """Expressions preceded by unary negation."""
 
     def parse(self, scope):
-        val, = self.process(self.tokens, scope)
+        vals = self.process(self.tokens, scope)
+        # a variable operand may carry the blank that followed it in the source
+        pad = [v for v in vals if isinstance(v, string_types) and not v.strip()]
+        val, = [v for v in vals if v not in pad]
         if isinstance(val, string_types):
-            if val.startswith('-'):
-                return val[1:]
-            return '-' + val
-        return -val
+            val = val[1:] if val.startswith('-') else '-' + val
+        else:
+            val = -val
+        return (val, pad[0]) if pad else val
